@@ -117,6 +117,72 @@ Fixpoint mrun (n gap : Z) (t : option twa) (ops : list mop) : outcome (option tw
   end.
 
 (* ------------------------------------------------------------------------------------ *)
+(* market.BeginBlocker over the whole Twa store (assoc list by asset id, ascending).       *)
+Definition mstore := list (Z * twa).
+
+Fixpoint sget (s : mstore) (id : Z) : option twa :=
+  match s with [] => None | (k, v) :: r => if k =? id then Some v else sget r id end.
+
+(* insert keeping ascending key order (the KV store iterates in key order) *)
+Fixpoint sset (s : mstore) (id : Z) (v : twa) : mstore :=
+  match s with
+  | [] => [(id, v)]
+  | (k, w) :: r => if k =? id then (id, v) :: r
+                   else if id <? k then (id, v) :: (k, w) :: r
+                   else (k, w) :: sset r id v
+  end.
+
+Definition sput (s : mstore) (id : Z) (t : option twa) : mstore :=
+  match t with Some v => sset s id v | None => s end.
+
+(* the rate loop: [index] counts price-requiring assets seen so far (starts at -1) *)
+Fixpoint rate_loop (n gap height : Z) (rates : list Z) (assets : list (Z * bool)) (index : Z)
+         (s : mstore) : outcome mstore :=
+  match assets with
+  | [] => Ok s
+  | (id, req) :: rest =>
+      if req && negb (match rates with [] => true | _ => false end) then
+        let index' := index + 1 in
+        if zlen rates >? index' then
+          match nth_z rates (Z.to_nat index') with
+          | None => Panic
+          | Some rate =>
+              match update n gap height rate (sget s id) with
+              | Ok t' => rate_loop n gap height rates rest index' (sput s id t')
+              | Err c => Err c
+              | Panic => Panic
+              end
+          end
+        else rate_loop n gap height rates rest index' s
+      else rate_loop n gap height rates rest index s
+  end.
+
+Record bb_env := mkBB {
+  bb_valid : bool;      (* bandKeeper.GetOracleValidationResult *)
+  bb_last : Z;          (* bandKeeper.GetLastBlockHeight *)
+  bb_height : Z;        (* ctx.BlockHeight *)
+  bb_discard : bool;    (* discardData.DiscardBool *)
+  bb_rates : list Z;    (* the fetched result's rates (nil = []) *)
+  bb_n : Z; bb_gap : Z  (* TwaBatchSize, AcceptedHeightDiff of the stored fetch msg *)
+}.
+
+(* returns the new store and the new DiscardBool *)
+Definition begin_block (e : bb_env) (assets : list (Z * bool)) (s : mstore) : outcome (mstore * bool) :=
+  if bb_valid e then
+    if negb (bb_last e =? 0) && (bb_height e mod 20 =? 0) then
+      let s1 := if bb_discard e then map (fun kv => (fst kv, discard_reset (snd kv))) s else s in
+      match rate_loop (bb_n e) (bb_gap e) (bb_height e) (bb_rates e) assets (-1) s1 with
+      | Ok s2 => Ok (s2, false)
+      | Err c => Err c
+      | Panic => Panic
+      end
+    else Ok (s, bb_discard e)
+  else
+    Ok (fold_left (fun acc a => match sget acc (fst a) with
+                                | Some tw => sset acc (fst a) (invalidate tw)
+                                | None => acc end) assets s, bb_discard e).
+
+(* ------------------------------------------------------------------------------------ *)
 (* Property predicate on an observed record (the same boolean judges the implementation's
    records in the runner).  [hist] = positive samples accepted since the last window reset,
    most recent first (maintained by the observer from the inputs alone, see [hist_step]). *)
@@ -140,6 +206,32 @@ Definition ghost_step (gap : Z) (g : ghost) (o : mop) : ghost :=
   | DiscardReset => mkGhost [] (g_disc g) (g_exists g)
   | Invalidate => g
   end.
+
+(* what one BeginBlocker delivers to each asset's record, as per-asset ops (pure function of the
+   inputs; used by the observer to maintain the ghost, and by BlockRefines in the proofs) *)
+Fixpoint bb_samples (height : Z) (rates : list Z) (assets : list (Z * bool)) (index : Z)
+  : list (Z * mop) :=
+  match assets with
+  | [] => []
+  | (id, req) :: rest =>
+      if req && negb (match rates with [] => true | _ => false end) then
+        let index' := index + 1 in
+        if zlen rates >? index' then
+          match nth_z rates (Z.to_nat index') with
+          | None => []
+          | Some rate => (id, Sample height rate) :: bb_samples height rates rest index'
+          end
+        else bb_samples height rates rest index'
+      else bb_samples height rates rest index
+  end.
+
+Definition bb_ops (e : bb_env) (assets : list (Z * bool)) (known : list Z) : list (Z * mop) :=
+  if bb_valid e then
+    if negb (bb_last e =? 0) && (bb_height e mod 20 =? 0) then
+      (if bb_discard e then map (fun id => (id, DiscardReset)) known else [])
+      ++ bb_samples (bb_height e) (bb_rates e) assets (-1)
+    else []
+  else map (fun a => (fst a, Invalidate)) assets.
 
 (* The property, on one observed record, for window size n:
    - active only with a full window of positive samples since the last reset
